@@ -15,7 +15,7 @@ Print Assumptions C08_short_input_ahead.
 (* consuming past the end of a truncated stream is FATAL ("Truncated input file"), not a short
    success; consuming within it is exact *)
 Theorem C08_short_input_consume : forall s req r s',
-  Inv s -> ffatal s = false -> plain (cl s) -> consume s req = (r, s') ->
+  Inv s -> ffatal s = false -> skippable (cl s) -> consume s req = (r, s') ->
   (Z.of_N (len (rest s)) < req)%Z -> r = ARCHIVE_FATAL.
 Proof. exact short_input_consume. Qed.
 Print Assumptions C08_short_input_consume.
